@@ -218,6 +218,8 @@ def gen_wf_annotation(rng, voc, pool=None):
             if k in [x[0] for x in d]:
                 continue
             v = None if rng.random() < 0.3 else gen_token(rng, allow_eq=True)
+            if rng.random() < 0.04:
+                v = ''          # `key=`: the parser keeps the empty value
             d.append([k, v])
         return [name, {'dict': d}]
     if name in voc['list']:
@@ -423,7 +425,7 @@ WORDS = ['Frobnicates', 'the', 'widget', 'and', 'returns', 'a', 'new', 'referenc
          'g_free().', '(optional)', 'text', 'e.g.', '10', '2.0', 'since', 'a:b', 'returns:', 'http://x.org/y']
 CODE_LINES = ['  g_print ("x");', '    return 0;', '|[', ']|', '  - item one', '\tfoo (a, b);', '  int x = 1; /<!-- -->* c *<!-- -->/']
 SYM_NAMES = ['foo_bar', 'gtk_widget_show', 'FooBar', 'FOO_CONST', 'foo-bar', 'x', 'g_object_new', '_private_fn', 'été',
-             'foo2', 'a_b_c']
+             'foo2', 'a_b_c', 'ACTION_TYPE_FOO']
 CLASS_NAMES = ['GtkWidget', 'FooBar', 'GObject', 'X', 'Été']
 MEMBER_NAMES = ['prop-name', 'clicked', 'notify', 'size_changed', 'x', 'long-member-name']
 PARAM_NAMES = ['obj', 'self', 'n_items', 'user_data', 'error', 'a', 'callback', 'out-value', 'é', 'x1', '...']
@@ -642,6 +644,84 @@ def parse_real(impl, text, filename='f.c', lineno=1):
     return block_to_json(b), (list(b.indentation) if b is not None else None), impl.take(), None
 
 
+# ---------------------------------------------------------------- block model vs real parser / writer
+def _pos_line(x):
+    pos = getattr(x, 'position', None)
+    return pos.line if pos is not None else None
+
+
+def part_raw(p, is_tag):
+    d = {'name': p.name, 'line': _pos_line(p), 'annotations': anns_to_json(p.annotations),
+         'anns_line': _pos_line(p.annotations), 'description': p.description}
+    if is_tag:
+        d['value'] = p.value
+    return d
+
+
+def block_raw(b):
+    """a GtkDocCommentBlock exactly as the parser left it ('' and None kept apart, positions, indentation):
+    the shape the model driver's `block.parse` answers with"""
+    if b is None:
+        return None
+    return {'name': b.name, 'line': _pos_line(b), 'annotations': anns_to_json(b.annotations),
+            'anns_line': _pos_line(b.annotations),
+            'params': [part_raw(p, False) for p in b.params.values()], 'description': b.description,
+            'tags': [part_raw(t, True) for t in b.tags.values()], 'code_before': b.code_before,
+            'code_after': b.code_after, 'indentation': list(b.indentation)}
+
+
+def real_block_case(impl, text, lineno):
+    """parse_comment_block + GtkDocCommentBlockWriter.write on the real code, in the model driver's shape.
+    validate() diagnostics are left out (the model stops before validate())"""
+    impl.take()
+    try:
+        b = impl.parser.parse_comment_block(text, 'f.c', lineno)
+    except Exception as e:  # noqa
+        impl.take()
+        return {'raise': type(e).__name__}
+    diags = []
+    for r in impl.take():
+        k = kind_of(r['text'])
+        if k in VALIDATE_KINDS:
+            continue
+        diags.append({'level': 'W' if r['level'] == 0 else 'E', 'kind': k,
+                      'line': r['positions'][-1][1] if r['positions'] else None,
+                      'marker': r['marker_pos'], 'quoted': r['marker_line']})
+    try:
+        w = impl.writer.write(b) if b is not None else None
+    except Exception as e:  # noqa
+        w = {'raise': type(e).__name__}
+    return {'block': block_raw(b), 'diags': diags, 'written': w}
+
+
+def check_blocks(ctx, impl, cnt, prefix, texts):
+    """model `parseBlock` / `writeBlock` vs the real GtkDocCommentBlockParser.parse_comment_block /
+    GtkDocCommentBlockWriter.write on `texts` [(text, lineno)]: block tree ('' vs None, positions,
+    indentation), every diagnostic (level, kind, line, caret, quoted line) in order, written text."""
+    if not hasattr(impl.parser, 'parse_comment_block') or not hasattr(impl.writer, 'write'):
+        ctx.broken.append('correspondence %s.block.parse: parse_comment_block / write no longer exists' % prefix)
+        return 0, 0
+    texts = [(t, ln) for t, ln in texts if 'Σ' not in t]
+    res = ctx.driver.batch([{'op': prefix + '.block.parse', 'text': t, 'lineno': ln} for t, ln in texts])
+    ndis = 0
+    for (t, ln), m in zip(texts, res):
+        r = real_block_case(impl, t, ln)
+        if 'raise' in r:
+            # validate() is not part of the model; what the real code raises is judged by the statement oracles
+            cnt.hit('L3:real-raised(not compared)')
+            continue
+        cnt.hit('L3:block' if r['block'] is not None else 'L3:none')
+        for d in r['diags']:
+            cnt.hit('L3:diag:' + d['kind'])
+        if r != m:
+            ndis += 1
+            if ndis <= 3:
+                where = [k for k in ('block', 'diags', 'written') if 'raise' in m or r[k] != m.get(k)]
+                ctx.broken.append('correspondence %s.block.parse differs in %s: text=%r lineno=%d impl=%r model=%r'
+                                  % (prefix, where, t, ln, r, m))
+    return ndis, len(texts)
+
+
 # ---------------------------------------------------------------- shared correspondence checks
 def private_api_ok(ctx, impl, prefix):
     """Calls into private functions of /repo are guarded: when one is gone or has another
@@ -759,11 +839,23 @@ PENDING_FINDINGS = [
              'the trimmed text (COMMENT_BLOCK_END_RE group "comment": leading white space and the token removed) and '
              'every later diagnostic for it quotes the trimmed text with a caret column relative to it, not the '
              'source line'},
+    {'key': 'site:GtkDocCommentBlockWriter._serialize_annotations:empty option value written as bare key',
+     'what': 'an option written "key=" (e.g. "(attributes k=)", "(array length=)") is parsed without any diagnostic as '
+             'the value "" of that key, but GtkDocCommentBlockWriter._serialize_annotations tests "if value:" and writes '
+             'the bare key; parsing that gives the value None, so parse(write(parse(s))) differs from parse(s) '
+             '("(array zero-terminated=)" even changes meaning: invalid value -> zero-terminated)'},
+    {'key': 'site:GtkDocCommentBlockWriter.write:symbol whose name starts with SECTION/ACTION is written without annotations',
+     'what': 'GtkDocCommentBlockWriter.write tests block.name.startswith("SECTION") / startswith("ACTION") (no colon), so a '
+             'symbol such as "ACTION_TYPE_FOO: (skip)" is written as the bare line "ACTION_TYPE_FOO": its annotations '
+             'are lost (and "SECTIONX_FOO: (skip)" is written "SECTIONX_FOO", which parses as the section "X_FOO")'},
 ]
 KEY_LEN_NONE = PENDING_FINDINGS[0]['key']
 KEY_END_TEXT = PENDING_FINDINGS[3]['key']
 KEY_ACTION_WRITE = PENDING_FINDINGS[2]['key']
 KEY_NO_POSITION = PENDING_FINDINGS[1]['key']
+KEY_EMPTY_VALUE = PENDING_FINDINGS[4]['key']
+KEY_NAME_PREFIX = PENDING_FINDINGS[5]['key']
+_REAL_ACTION = re.compile(r'^ACTION:\w+:[\w-]+\.[\w-]+$')
 _COPYFREE = re.compile(r'[(<]\s*(copy-func|free-func)\s*[)>]', re.I)
 
 
@@ -775,3 +867,30 @@ def install_pending(ctx):
 
 def is_len_none_defect(exc, text):
     return isinstance(exc, TypeError) and "'NoneType' has no len()" in str(exc) and _COPYFREE.search(text) is not None
+
+
+def empty_values_to_none(x):
+    """the same canonical value with every empty dict-option value replaced by None"""
+    if isinstance(x, dict):
+        if set(x.keys()) == {'dict'}:
+            return {'dict': [[k, (None if v == '' else v)] for k, v in x['dict']]}
+        return {k: empty_values_to_none(v) for k, v in x.items()}
+    if isinstance(x, list):
+        return [empty_values_to_none(v) for v in x]
+    return x
+
+
+def is_empty_value_defect(before, after):
+    """`after` is `before` with nothing changed except empty option values having become None"""
+    norm = empty_values_to_none(before)
+    return norm != before and after == norm
+
+
+def is_name_prefix_defect(b, b2):
+    """a block that is not an action / section but whose name starts like one, re-read differently"""
+    n = b['name']
+    if not (n.startswith('SECTION') or n.startswith('ACTION')):
+        return False
+    if n.startswith('SECTION:') or _REAL_ACTION.match(n):
+        return False
+    return b2 != b
